@@ -19,7 +19,8 @@ func TestMain(m *testing.M) {
 		"[]int/[]string/map[string]int/plain struct values (literals, append, index, slicing, delete, comma-ok, field get/set, copy on assignment), declared functions (two results, recursion, closure makers, named result set by a deferred closure), " +
 		"closures capturing and modifying locals and per-iteration variables, if/else chains with init, the three for forms, range over slice/string/map, expression switches (int, string, tagless, fallthrough, default anywhere), " +
 		"unlabeled break/continue, early return, defer order and recover of explicit panics and run-time errors (division by zero, index, nil map); run by classic.Interp one declaration per Eval; " +
-		"a case is non-trivial when its executed trace contains the event placed immediately before a break/continue/early return, or a recovered (non-nil) panic; distinct = distinct program texts")
+		"functions with an unnamed result returning a bare local/parameter/element/field/struct/slice that deferred closures modify after the return operand was evaluated; " +
+		"a case is non-trivial when its executed trace contains the event placed immediately before a break/continue/early return, a recovered (non-nil) panic, or the event of a deferred closure that modified the operand of a return statement; distinct = distinct program texts")
 	vrec.Assume("oracle: gc toolchain, generated module with `go 1.18`, trace formatted by the same compiled recorder on both sides")
 	vrec.Assume("outside the subset, never generated: labels and goto, interfaces and comparisons with nil, methods, named non-struct types, pointers, sized integer types, mixing untyped constants of different kinds (documented classic limitation)")
 	os.Exit(vlib.Main(m, vrec))
@@ -30,6 +31,17 @@ func ntFunc(p gobatch.Program, res gobatch.Result) string {
 	for _, e := range strings.Split(p.Meta["nt-events"], ",") {
 		if e != "" {
 			evs[e] = true
+		}
+	}
+	devs := map[string]bool{}
+	for _, e := range strings.Split(p.Meta["defer-events"], ",") {
+		if e != "" {
+			devs[e] = true
+		}
+	}
+	for _, line := range res.Trace {
+		if i := strings.IndexByte(line, ' '); i >= 0 && devs[line[:i]] {
+			return "defer-modified-returned-operand"
 		}
 	}
 	for _, line := range res.Trace {
